@@ -15,7 +15,7 @@ coq/_CoqProject: $(wildcard coq/theories/*.v)
 
 extract: coq/extract/model_eval
 
-coq/extract/model_eval: coq/extract/Extract.v coq/extract/driver.ml coq/theories/Pipeline.vo coq/theories/Drivers.vo
+coq/extract/model_eval: coq/extract/Extract.v coq/extract/driver.ml $(wildcard coq/theories/*.v)
 	cd coq/extract && rm -f model.ml model.mli && timeout 600 coqc -Q ../theories YG Extract.v > /dev/null && \
 	  ocamlfind ocamlopt -O3 -w -a model.mli model.ml driver.ml -o model_eval 2>/dev/null || \
 	  ocamlfind ocamlopt -w -a model.mli model.ml driver.ml -o model_eval
